@@ -4,7 +4,9 @@ A task of tid k holds its dependency task objects somewhere inside `deps` (neste
 frozendicts). run() reads every dependency *object* in discovery order, appends an exec record to
 the case's exec log and returns 1000*k + ctx + sum(values read, 7 for a failed read).
 mode bits: 1 = run() raises, 2 = worker dies (implemented by the fake process layer),
-4 = strict (let the TaskError of a failed dependency read propagate).
+4 = strict (let the TaskError of a failed dependency read propagate), 8 = the result is None (a legal
+value; the model carries it as NONE_CODE), 32 = run() raises iff the Lab context value is odd (a failure
+that depends on the call, not on the task), 64 = the raised exception is chained (`raise … from …`).
 """
 import os
 
@@ -14,6 +16,9 @@ import labtech
 from labtech.cache import PickleCache
 from labtech.exceptions import TaskError
 from labtech.types import is_task
+
+NONE_CODE = 999999   # how the model and the observation strings spell a result that is None
+MISSING = object()
 
 EXEC_LOG = None  # path; set by the harness before a case runs (inherited by forked helpers)
 REAL = False     # real-backend runs: tasks sleep a little, record wall-clock spans, dying tasks kill themselves
@@ -61,18 +66,26 @@ def _run(self):
     reads = []
     for d in dep_objects(self.deps):
         try:
-            reads.append(d.result)
+            r = d.result
+            reads.append(NONE_CODE if r is None else r)
         except TaskError:
-            reads.append(None)
-    log_line('X %d %s' % (self.k, ','.join('-' if r is None else str(r) for r in reads)))
-    if self.mode & 1:
-        raise ValueError(f'task {self.k} fails')
-    if (self.mode & 4) and any(r is None for r in reads):
-        raise TaskError(f'task {self.k}: a dependency result is unavailable')
+            reads.append(MISSING)
+    log_line('X %d %s' % (self.k, ','.join('-' if r is MISSING else str(r) for r in reads)))
     ctx = (self.context or {}).get('c', 0)
+    if (self.mode & 1) or ((self.mode & 32) and ctx % 2 == 1):
+        if self.mode & 64:
+            try:
+                raise KeyError('inner cause')
+            except KeyError as inner:
+                raise ValueError(f'task {self.k} fails') from inner
+        raise ValueError(f'task {self.k} fails')
+    if (self.mode & 4) and any(r is MISSING for r in reads):
+        raise TaskError(f'task {self.k}: a dependency result is unavailable')
     if real:
         log_line('T %d %r %r %d %s' % (self.k, t_start, time.time(), os.getpid(), type(self).__name__))
-    return 1000 * self.k + ctx + sum(7 if r is None else r for r in reads)
+    if self.mode & 8:
+        return None
+    return 1000 * self.k + ctx + sum(7 if r is MISSING else r for r in reads)
 
 
 @labtech.task
